@@ -588,7 +588,7 @@ def main():
                 }
                 tsets = [(2, 4), (3, 6), (4, 8)] if not T else [(2, 4), (3, 6, 2), (2, 4, 8), (12, 6, 3), (4, 2, 1, 8)]
                 for form, how in forms.items():
-                    for rep_ in range(2 if T else 1):
+                    for rep_ in range(1):
                         vt_n += 1
                         targets = [m * bv.res for m in tsets[vt_n % len(tsets)]]   # each has a level derived from a derived level
                         cs = (2, 7, 10 ** 6)[vt_n % 3]
@@ -654,7 +654,7 @@ def main():
 
     # ---------------------------------------------------------------- 8. seeded random sampling
     if T:
-        for i in range(150):
+        for i in range(100):
             nch = rng.randrange(1, 4)
             fixedw = rng.random() < 0.6
             w = rng.randrange(2, 9)
